@@ -3,6 +3,7 @@ package storage
 import (
 	"database/sql"
 	"fmt"
+	"github.com/lab5e/lospan/pkg/verifgate"
 
 	"encoding/base64"
 
@@ -144,6 +145,9 @@ func (d *dataStatements) prepare(db *sql.DB) error {
 
 // CreateUpstreamMessage stores a new data element in the backend. The element is associated with the specified DevAddr
 func (s *Storage) CreateUpstreamMessage(deviceEUI protocol.EUI, data model.UpstreamMessage) error {
+	if err := verifgate.Gate("CreateUpstreamMessage"); err != nil {
+		return err
+	}
 	return s.doSQLExec(s.dataStmt.createUpstream, func(st *sql.Stmt) (sql.Result, error) {
 		b64str := base64.StdEncoding.EncodeToString(data.Data)
 		return st.Exec(deviceEUI.ToInt64(),
@@ -203,11 +207,17 @@ func (s *Storage) doQuery(stmt *sql.Stmt, eui protocol.EUI, limit int) ([]model.
 
 // ListUpstreamMessages retrieves all of the data stored for that DevAddr
 func (s *Storage) ListUpstreamMessages(deviceEUI protocol.EUI, limit int) ([]model.UpstreamMessage, error) {
+	if err := verifgate.Gate("ListUpstreamMessages"); err != nil {
+		return nil, err
+	}
 	return s.doQuery(s.dataStmt.listUpstream, deviceEUI, limit)
 }
 
 // CreateDownstreamMessage creates new downstream data for a device
 func (s *Storage) CreateDownstreamMessage(deviceEUI protocol.EUI, message model.DownstreamMessage) error {
+	if err := verifgate.Gate("CreateDownstreamMessage"); err != nil {
+		return err
+	}
 	return s.doSQLExec(s.dataStmt.createDownstream, func(st *sql.Stmt) (sql.Result, error) {
 		return st.Exec(
 			deviceEUI.String(),
@@ -223,6 +233,9 @@ func (s *Storage) CreateDownstreamMessage(deviceEUI protocol.EUI, message model.
 
 // DeleteDownstreamMessage deletes a downstream message
 func (s *Storage) DeleteDownstreamMessage(deviceEUI protocol.EUI, createdTime int64) error {
+	if err := verifgate.Gate("DeleteDownstreamMessage"); err != nil {
+		return err
+	}
 	return s.doSQLExec(s.dataStmt.deleteDownstream, func(st *sql.Stmt) (sql.Result, error) {
 		return st.Exec(deviceEUI.String(), createdTime)
 	})
@@ -230,6 +243,9 @@ func (s *Storage) DeleteDownstreamMessage(deviceEUI protocol.EUI, createdTime in
 
 // ListDownstreamMessages lists the scheduled downstream messages for a device
 func (s *Storage) ListDownstreamMessages(deviceEUI protocol.EUI) ([]model.DownstreamMessage, error) {
+	if err := verifgate.Gate("ListDownstreamMessages"); err != nil {
+		return nil, err
+	}
 	var ret []model.DownstreamMessage
 
 	s.mutex.Lock()
@@ -254,6 +270,9 @@ func (s *Storage) ListDownstreamMessages(deviceEUI protocol.EUI) ([]model.Downst
 
 // GetNextUnsentMessage returns the oldest unsent message from the store
 func (s *Storage) GetNextUnsentMessage(deviceEUI protocol.EUI) (model.DownstreamMessage, error) {
+	if err := verifgate.Gate("GetNextUnsentMessage"); err != nil {
+		return model.DownstreamMessage{}, err
+	}
 	var ret model.DownstreamMessage
 
 	s.mutex.Lock()
@@ -276,6 +295,9 @@ func (s *Storage) GetNextUnsentMessage(deviceEUI protocol.EUI) (model.Downstream
 
 // SetMessageSentTime sets the sent time and frame counter fields for a message in the store.
 func (s *Storage) SetMessageSentTime(deviceEUI protocol.EUI, createdTime int64, sentTime int64, frameCounterUp uint16) error {
+	if err := verifgate.Gate("SetMessageSentTime"); err != nil {
+		return err
+	}
 	res, err := s.db.Exec(`
 		UPDATE 
 			lora_downstream_messages
@@ -300,6 +322,9 @@ func (s *Storage) SetMessageSentTime(deviceEUI protocol.EUI, createdTime int64, 
 
 // UpdateMessageAckTime sets the ack time field in the store.
 func (s *Storage) UpdateMessageAckTime(deviceEUI protocol.EUI, frameCounterUp uint16, ackTime int64) error {
+	if err := verifgate.Gate("UpdateMessageAckTime"); err != nil {
+		return err
+	}
 	res, err := s.db.Exec(`
 		UPDATE 
 			lora_downstream_messages
@@ -323,6 +348,9 @@ func (s *Storage) UpdateMessageAckTime(deviceEUI protocol.EUI, frameCounterUp ui
 
 // ResetActiveAcks resets all active acks for a device in the store
 func (s *Storage) ResetActiveAcks(deviceEUI protocol.EUI) error {
+	if err := verifgate.Gate("ResetActiveAcks"); err != nil {
+		return err
+	}
 	_, err := s.db.Exec(`
 		UPDATE 
 			lora_downstream_messages
